@@ -17,7 +17,7 @@ use std::time::Duration;
 pub static INFO: PropInfo = PropInfo {
     id: "C20",
     level: "exploration",
-    rule: "one evaluation = one session of the real NetcodeServerTransport and 1-5 NetcodeClientTransports over 127.0.0.1 UDP sockets, single-threaded with virtual durations, through an in-path relay (one front socket the clients believe is the server, one back socket per client) that applies a seeded schedule to the real datagrams: drop, duplicate, delay / reorder, replay of old datagrams, bit corruption; applications submit messages on all three channel kinds both ways, disconnect from either side / either layer at seeded ticks, and reconnect with the same client id; secure and unsecure authentication. Oracles: right after every NetcodeServerTransport::update the server has no disconnected-but-present connection, the message layer's connected ids equal the ids the transport has an address for, and both counts agree; ServerEvents per id alternate Connected/Disconnected starting with Connected; every application- or peer-initiated disconnect is visible on the other side within timeout + 1 s of virtual time; every obtained message is a byte-identical submission of the same client / channel, in order on ordered channels and at most once on reliable ones; in interference-only runs (every timeout window sees a genuine datagram delivered each way) no session ends unless an application asked for it; every datagram seen by the relay is <= 1400 bytes. Non-trivial = the relay interfered (drop/dup/delay/replay/corrupt) AND at least one client connected AND at least one disconnect was propagated; distinct = fingerprints of the session history (connects, disconnects, message counts). In half of the clean-relay runs one client (with an id of its own) is MUTED: the relay drops every server-to-client session datagram for it, so the server holds its session while the client is still answering the challenge; its application then disconnects (client or transport API) and the server side must be gone within 6 ticks. A quarter of the runs end their fault phase with a SERVER SHUTDOWN: 0-2 message-layer kicks (RenetServer::disconnect) are left pending and NetcodeServerTransport::disconnect_all is called in the same frame; the netcode layer must be empty at once, every session gets its ClientDisconnected and every client ends. At the end of every run the last event per id must agree with both layers. A third of the runs also have a HOST PLAYER: a local client of the same RenetServer (new_local_client, pumped with process_local_client every tick after the transport's send_packets) exchanging ordered messages with the server; it has no netcode session (excluded from the lock-step comparison), must never be reported disconnected, and its ordered streams must be complete and in order at the end of the run. One run in 16 is a VANISHED-SERVER run instead: one client (its UDP socket connected to the server's address in 2 of 3 runs) and a server transport, direct; after some traffic the server transport is dropped (socket closed) and the client, still being updated and still sending, must be disconnected within timeout + 1 s of virtual time. During the fault phase the client limit is changed at run time now and then (set_max_clients(1..8), also below the number connected): the lock-step comparison must keep holding, nobody loses a session for it.",
+    rule: "one evaluation = one session of the real NetcodeServerTransport and 1-5 NetcodeClientTransports over 127.0.0.1 UDP sockets, single-threaded with virtual durations, through an in-path relay (one front socket the clients believe is the server, one back socket per client) that applies a seeded schedule to the real datagrams: drop, duplicate, delay / reorder, replay of old datagrams, bit corruption; applications submit messages on all three channel kinds both ways, disconnect from either side / either layer at seeded ticks, and reconnect with the same client id; secure and unsecure authentication. Oracles: right after every NetcodeServerTransport::update the server has no disconnected-but-present connection, the message layer's connected ids equal the ids the transport has an address for, and both counts agree; ServerEvents per id alternate Connected/Disconnected starting with Connected; every application- or peer-initiated disconnect is visible on the other side within timeout + 1 s of virtual time; every obtained message is a byte-identical submission of the same client / channel, in order on ordered channels and at most once on reliable ones; in interference-only runs (every timeout window sees a genuine datagram delivered each way) no session ends unless an application asked for it; every datagram seen by the relay is <= 1400 bytes. Non-trivial = the relay interfered (drop/dup/delay/replay/corrupt) AND at least one client connected AND at least one disconnect was propagated; distinct = fingerprints of the session history (connects, disconnects, message counts). In half of the clean-relay runs one client (with an id of its own) is MUTED: the relay drops every server-to-client session datagram for it, so the server holds its session while the client is still answering the challenge; its application then disconnects (client or transport API) and the server side must be gone within 6 ticks. A quarter of the runs end their fault phase with a SERVER SHUTDOWN: 0-2 message-layer kicks (RenetServer::disconnect) are left pending and NetcodeServerTransport::disconnect_all is called in the same frame; the netcode layer must be empty at once, every session gets its ClientDisconnected and every client ends. At the end of every run the last event per id must agree with both layers. A third of the runs also have a HOST PLAYER: a local client of the same RenetServer (new_local_client, pumped with process_local_client every tick after the transport's send_packets) exchanging ordered messages with the server; it has no netcode session (excluded from the lock-step comparison), must never be reported disconnected, and its ordered streams must be complete and in order at the end of the run. One run in 16 is a VANISHED-SERVER run instead: one client (its UDP socket connected to the server's address in 2 of 3 runs) and a server transport, direct; after some traffic the server transport is dropped (socket closed) and the client, still being updated and still sending, must be disconnected within timeout + 1 s of virtual time. During the fault phase the client limit is changed at run time now and then (set_max_clients(1..8), also below the number connected): the lock-step comparison must keep holding, nobody loses a session for it. A quarter of the runs with two or more clients are CROWDED: one slot too few at first, so somebody is denied; the relay holds half of the ConnectionDenied datagrams back, the server application frees a slot at tick 10, and a client that got in afterwards is shown its stale denial, which must not end its session.",
     assumptions: &[
         "single-threaded endpoints, loopback delivery is effectively synchronous; a datagram the relay misses arrives one tick later (a legal delay)",
         "bounds are on virtual time (durations passed to update), never wall-clock",
@@ -43,6 +43,7 @@ pub static INFO: PropInfo = PropInfo {
         ("disconnect_during_handshake_with_server_session", 5),
         ("shutdown_disconnect_all", 20),
         ("client_limit_changed_at_run_time", 50),
+        ("stale_denied_shown_to_connected_client", 3),
         ("client_limit_lowered_below_connected", 5),
         ("host_player_liveness_checked", 50),
         ("vanished_server_runs_connected_socket", 20),
@@ -152,6 +153,11 @@ struct World {
     muted: Option<usize>,
     /// a host player: a LOCAL client of the same RenetServer (listen-server setup); it has no netcode session
     host: Option<Host>,
+    /// ConnectionDenied datagrams the relay held back (peer, generation, bytes): the client keeps asking, gets in
+    /// when a slot frees, and is then shown the stale denial
+    withheld_denied: Vec<(usize, u32, Vec<u8>)>,
+    /// peers that were shown a stale ConnectionDenied while connected (peer -> tick)
+    stale_denied_shown: HashMap<usize, u64>,
     /// first server->client datagram seen per (peer, generation): a handshake reply (challenge)
     stale: HashMap<(usize, u32), Vec<u8>>,
 }
@@ -451,6 +457,8 @@ fn one_run_inner(ctx: &Ctx, out: &mut Outcome, run_seed: u64) {
         silenced: None,
         muted: None,
         host: None,
+        withheld_denied: Vec::new(),
+        stale_denied_shown: HashMap::new(),
         stale: HashMap::new(),
     };
     if r.chance(1, 3) {
@@ -491,6 +499,13 @@ fn one_run_inner(ctx: &Ctx, out: &mut Outcome, run_seed: u64) {
             w.muted = Some(*r.pick(&unique));
             out.count("runs_with_muted_client");
         }
+    }
+    // crowded: one slot fewer than clients at first (somebody is denied; the relay holds some denials back), a slot is
+    // freed a little later by the server application
+    let crowded = n_clients >= 2 && r.chance(1, 4);
+    if crowded {
+        w.st.set_max_clients(n_clients - 1);
+        out.count("crowded_runs");
     }
     let shutdown_run = r.chance(1, 4);
     let total_ticks = r.range(60, if ctx.thorough() { 600 } else { 260 });
@@ -628,6 +643,42 @@ fn one_run_inner(ctx: &Ctx, out: &mut Outcome, run_seed: u64) {
             }
         }
 
+        // ---- crowded run: the server application frees a slot, then the limit goes back up ---------------------
+        if crowded && w.tick == 10 {
+            let mut ids: Vec<u64> = w.server.clients_id().into_iter().filter(|id| *id != HOST_ID).collect();
+            ids.sort_unstable();
+            if let Some(id) = ids.first().copied() {
+                // the peer that holds the session of that id (a twin with the same id may exist)
+                let session_addr = w.st.client_addr(id);
+                if let Some(k) = w.peers.iter().position(|p| p.id == id && !p.app_closed && session_addr.is_some() && p.back.local_addr().ok() == session_addr) {
+                    w.server.disconnect(id);
+                    w.log(format!("crowded run: DISCONNECT id {} by server_app to free a slot", id));
+                    let p = &mut w.peers[k];
+                    p.app_closed = true;
+                    p.closed_at_ms = Some(w.now_ms);
+                    p.closed_by = "server_app";
+                    pending_closed_checks.push((k, p.generation, u64::MAX, "server_app"));
+                }
+            }
+        }
+        // ---- a client that got in after a held-back denial is shown that stale datagram ----------------------------
+        if !w.withheld_denied.is_empty() {
+            let mut keep = Vec::new();
+            let items = std::mem::take(&mut w.withheld_denied);
+            for (k, g, bytes) in items {
+                let live = k < w.peers.len() && w.peers[k].generation == g && !w.peers[k].app_closed;
+                if live && w.peers[k].client.is_connected() && w.peers[k].connected_seen {
+                    out.count("stale_denied_shown_to_connected_client");
+                    w.log(format!("RELAY delivers the ConnectionDenied it held back to peer {} (now connected)", k));
+                    let at = w.tick;
+                    w.flight.push(InFlight { at, to_server: false, peer: k, generation: g, bytes, genuine: false });
+                    w.stale_denied_shown.insert(k, w.tick);
+                } else if live && !w.peers[k].client.is_disconnected() {
+                    keep.push((k, g, bytes));
+                }
+            }
+            w.withheld_denied = keep;
+        }
         // ---- the operator changes the client limit at run time (raise or lower; nobody is ever kicked for it) ---
         if faults_on && r.chance(1, 150) {
             let n = r.urange(1, 8);
@@ -819,6 +870,28 @@ fn one_run_inner(ctx: &Ctx, out: &mut Outcome, run_seed: u64) {
             let _ = p.transport.update(Duration::from_millis(dt), &mut p.client);
             if p.client.is_connected() && !p.connected_seen {
                 p.connected_seen = true;
+            }
+            // a client that was refused by a full server is gone for good (whatever of its handshake is still in flight may
+            // yet give it a server-side session, which then times out): nobody owes it anything
+            if !p.app_closed && !p.connected_seen && !w.stale_denied_shown.contains_key(&k) && format!("{:?}", p.transport.disconnect_reason()).contains("ConnectionDenied") {
+                p.app_closed = true;
+                p.closed_at_ms = Some(w.now_ms);
+                p.closed_by = "denied_by_full_server";
+                out.count("clients_denied_by_full_server");
+            }
+            // a stale (genuine, but overtaken by events) ConnectionDenied must not end a session that is up
+            if w.stale_denied_shown.contains_key(&k) && !p.app_closed && p.connected_seen && format!("{:?}", p.transport.disconnect_reason()).contains("ConnectionDenied") {
+                let id = p.id;
+                viol(
+                    ctx,
+                    out,
+                    &w,
+                    run_seed,
+                    "C20/healthy-session-ended/client/stale-connection-denied",
+                    "interference never disconnects an otherwise healthy session other than through timeouts",
+                    format!("client {} was connected; a ConnectionDenied the server had sent while it was still full (held back by the relay) was delivered afterwards and ended the session", id),
+                );
+                return;
             }
             // client side ended without anybody asking
             if relay.interference_only && !p.app_closed && p.connected_seen && (p.client.is_disconnected() || p.transport.disconnect_reason().is_some()) {
@@ -1126,6 +1199,11 @@ fn relay_in(w: &mut World, r: &mut Rng, cfg: &RelayCfg, faults_on: bool, to_serv
     let tick = w.tick;
     if !to_server && w.muted == Some(peer) && generation == 0 && !bytes.is_empty() && (bytes[0] & 0xF) >= 4 {
         out.count("relay_muted_session_datagram");
+        return;
+    }
+    if !to_server && !bytes.is_empty() && (bytes[0] & 0xF) == 1 && w.withheld_denied.len() < 8 && r.chance(1, 2) {
+        out.count("relay_held_back_connection_denied");
+        w.withheld_denied.push((peer, generation, bytes.to_vec()));
         return;
     }
     if !to_server {
